@@ -368,9 +368,10 @@ fn sub_random_masks(input: &[u8], st: &mut Stats) -> R {
     let mut cs = Cs::new(input);
     let g = golden();
     for _ in 0..8 {
-        let kind = ["ImageOperands", "LoopControl", "MemoryAccess", "TensorAddressingOperands"][cs.below(4)];
+        // all six kinds in random order on one thread (reflection is a pure function of the value)
+        let kind = ["ImageOperands", "LoopControl", "MemoryAccess", "TensorAddressingOperands", "ExecutionMode", "Decoration"][cs.below(6)];
         let ge = g.enums.get(kind).unwrap();
-        let v = cs.u32() & ge.all_bits;
+        let v = if ge.is_mask { cs.u32() & ge.all_bits } else { ge.values[cs.below(ge.values.len())].value };
         check_value(kind, v, st)?;
         st.evaluations += 1;
     }
